@@ -1,7 +1,7 @@
 #!/bin/sh
 # development helper: run every registered quick (or given tier) check, print one line each
 TIER=${1:-quick}
-cd /verif
+cd ${VERIF_ROOT:-/verif}
 for id in $(python3 -c "import json;print(' '.join(c['property_id'] for c in json.load(open('MANIFEST.json'))['checks']))"); do
   s=$(date +%s)
   out=$(bin/check.sh $id $TIER 2>&1); rc=$?
